@@ -236,3 +236,36 @@ fn c05_q_debug_frame_fde_fields_and_contains() {
     assert!(matches!(it.next(), Ok(None)));
     kani::cover!(fde.contains(a));
 }
+
+/// version-1 CIE: no address/segment size fields, return address register is a single unsigned byte
+#[kani::proof]
+#[kani::unwind(20)]
+fn c05_q_debug_frame_v1_cie_fields() {
+    let mut buf = [0u8; 13 + 24];
+    buf[0] = 9;
+    buf[4] = 0xff;
+    buf[5] = 0xff;
+    buf[6] = 0xff;
+    buf[7] = 0xff;
+    buf[8] = 1; // version
+    buf[9] = 0; // augmentation
+    buf[10] = kani::any();
+    buf[11] = kani::any();
+    buf[12] = kani::any(); // return address register: one byte, any value 0..=255
+    buf[13] = 20;
+    let mut i = 21;
+    while i < 37 {
+        buf[i] = kani::any();
+        i += 1;
+    }
+    let mut section = DebugFrame::from(FixLeb::<LittleEndian, 1>::new(&buf[..], LittleEndian));
+    section.set_address_size(8);
+    let bases = BaseAddresses::default();
+    let fde = section.fde_from_offset(&bases, DebugFrameOffset(13), DebugFrame::cie_from_offset).unwrap();
+    assert!(fde.cie().version() == 1 && fde.cie().address_size() == 8);
+    assert!(fde.cie().return_address_register() == Register(buf[12] as u16), "v1 return address register is a ubyte");
+    assert!(fde.cie().code_alignment_factor() == (buf[10] & 0x7f) as u64);
+    assert!(fde.cie().data_alignment_factor() == (((buf[11] & 0x7f) as i8) << 1 >> 1) as i64);
+    assert!(fde.initial_address() == ref_uint(&buf[21..], 8, false) as u64);
+    kani::cover!(buf[12] >= 0x80);
+}
